@@ -22,6 +22,6 @@ def scenarios(ctx):
         dict(name="callbacks-fragments", n=3 if q else 30, nticks=800 if q else 3000, heal_after=500 if q else 2400,
              policy=dict(p_cb=1.0, p_send=0.2, p_loss=0.12, maxdelay=12, lens=[1500, 2451, 2453, 2455, 2457, 2458, 3000, 3479, 5000, 100, 4], retries=(0, -1, 1)), world=dict(start_seq="alt")),
         # success may only be reported for what the peer accepted - also when the retransmission arrives behind a burst wider than the message window
-        dict(name="callbacks-under-bursts", n=3 if q else 30, nticks=800 if q else 2500, heal_after=500 if q else 2000,
+        dict(name="callbacks-under-bursts", n=3 if q else 10, nticks=800 if q else 1500, heal_after=500 if q else 1100,
              policy=dict(p_cb=1.0, p_send=0.15, p_loss=0.2, retries=(-1, -1, 1), lens=[4, 20, 600, 1500], burst=0.03, burst_lens=(4, 4, 5), burst_retries=(0,), maxdelay=4), world=dict(start_seq="alt")),
     ]
